@@ -3,7 +3,7 @@
 From Schwifty Require Import Lib.Base Lib.Lit Model.Clean Model.Data Model.Iban Model.Bban Model.National Model.Algorithms
   Model.Germany Model.Lookup.
 From Schwifty Require Import Spec.Iso13616 Spec.NationalPublished Proofs.TableOfJson.
-From Schwifty Require Import Proofs.NumFacts Proofs.IbanFacts Proofs.NationalFacts Proofs.NationalDigits Proofs.NationalCountries Proofs.NationalMore Proofs.GenObligations.
+From Schwifty Require Import Proofs.NumFacts Proofs.IbanFacts Proofs.NationalFacts Proofs.NationalDigits Proofs.NationalCountries Proofs.NationalMore Proofs.CleanFacts Proofs.DecompFacts Proofs.TotalFacts Proofs.GenObligations.
 From Schwifty Require Import Gen.Env Gen.IbanData Gen.IbanCfg Gen.ChecksumCfg Gen.GermanyTbl Gen.Banks.
 From Coq Require Import String Lia.
 
@@ -399,6 +399,75 @@ Proof.
     rewrite <- (sl_glue 21 22 23 b) by lia. rewrite !sl_single by lia. cbn [app forallb]. rewrite K1, K2. reflexivity. }
   rewrite (fr_validate nd_runs C06_nd_obl b) by (first [assumption|lia]). cbn [bind]. reflexivity.
 Qed.
+
+
+(* ---- at IBAN level: with national validation requested, accepted = ISO 13616-valid and the published rule holds ------ *)
+Definition the_national := validate_national the_table the_algos (bank_code_entries the_banks).
+Lemma C06_steps_obl :
+  nat_last (ic_steps the_iban_cfg) = true
+  /\ existsb (fun st => match st with SNational => true | _ => false end) (ic_steps the_iban_cfg) = true.
+Proof. vm_cast_no_check (conj (eq_refl true) (eq_refl true)). Qed.
+
+Lemma C06_pos_obl : forallb Spec.RegistrySpec.positions_wf the_table = true.
+Proof. vm_cast_no_check (eq_refl true). Qed.
+
+Theorem C06_iban_accept : forall txt,
+  (exists s, iban_new the_env the_iban_cfg the_table the_national txt false true = Ok s) <->
+  iso_ok the_table (clean the_env txt) = true
+  /\ the_national (iban_country_code (clean the_env txt)) (iban_bban the_env (clean the_env txt)) = Ok true.
+Proof.
+  intro txt. destruct C06_steps_obl as [Hl Hin].
+  pose proof (iban_accept_b the_env the_iban_cfg the_table the_national env_obl env_alpha_obl cfg_obl table_obl
+                (clean the_env txt) Hl Hin (clean_cleaned the_env env_obl txt)) as A.
+  unfold iban_new. cbn [bind].
+  destruct (iban_validate the_env the_iban_cfg the_table the_national true (clean the_env txt)) as [v|x|x] eqn:E; cbn [bind].
+  - assert (v = true).
+    { unfold iban_validate in E. destruct (run_steps _ _ _ _ _ _ _) as [[]|y|y]; cbn [bind] in E; try discriminate. inversion E; reflexivity. }
+    subst v. destruct (proj1 A eq_refl) as [Hi [w Hw]]. split; [intros _|intros _; eexists; reflexivity].
+    split; [exact Hi|]. rewrite Hw. f_equal. exact (C06_returns_true _ _ _ _ _ _ Hw).
+  - split; [intros [s Hs]; discriminate|]. intros [Hi Hn]. pose proof (proj2 A (conj Hi (ex_intro _ true Hn))). discriminate.
+  - split; [intros [s Hs]; discriminate|]. intros [Hi Hn]. pose proof (proj2 A (conj Hi (ex_intro _ true Hn))). discriminate.
+Qed.
+
+(* for a country whose BBAN-level check is "published rule ? true : raise": the IBAN is accepted iff it is ISO-valid and
+   the published rule holds of its BBAN *)
+Theorem C06_iban_level : forall (pub : text -> bool) cc,
+  (forall r b, find_row the_table cc = Some r -> conforms_row r b = true ->
+     the_national cc b = if pub b then Ok true else Err EInvalidBBANChecksum) ->
+  forall txt, iban_country_code (clean the_env txt) = cc ->
+  ((exists s, iban_new the_env the_iban_cfg the_table the_national txt false true = Ok s) <->
+   iso_ok the_table (clean the_env txt) = true /\ pub (iban_bban the_env (clean the_env txt)) = true).
+Proof.
+  intros pub cc Hrule txt Hcc. rewrite C06_iban_accept, Hcc.
+  split; intros [Hi Hn]; (split; [exact Hi|]).
+  - destruct (accepted_shape the_env the_iban_cfg the_table the_national (ic_components the_iban_cfg) (fun _ _ => None) (fun _ _ => [])
+                env_obl env_alpha_obl cfg_obl table_obl C06_pos_obl _ Hi)
+      as (c1 & c2 & d1 & d2 & b & r & Es & Er & Hc & _ & Hcl & _).
+    assert (Ecc : cc = [c1; c2]) by (rewrite <- Hcc, Es; apply cc_of). rewrite Ecc in *.
+    assert (Eb : iban_bban the_env (clean the_env txt) = b).
+    { rewrite Es. unfold iban_bban. rewrite slice_bban. apply cleaned_fix. rewrite Es in Hcl. apply (cleaned_skipn the_env 4) in Hcl. exact Hcl. }
+    rewrite Eb in *. rewrite (Hrule r b Er Hc) in Hn. destruct (pub b); [reflexivity|discriminate].
+  - destruct (accepted_shape the_env the_iban_cfg the_table the_national (ic_components the_iban_cfg) (fun _ _ => None) (fun _ _ => [])
+                env_obl env_alpha_obl cfg_obl table_obl C06_pos_obl _ Hi)
+      as (c1 & c2 & d1 & d2 & b & r & Es & Er & Hc & _ & Hcl & _).
+    assert (Ecc : cc = [c1; c2]) by (rewrite <- Hcc, Es; apply cc_of). rewrite Ecc in *.
+    assert (Eb : iban_bban the_env (clean the_env txt) = b).
+    { rewrite Es. unfold iban_bban. rewrite slice_bban. apply cleaned_fix. rewrite Es in Hcl. apply (cleaned_skipn the_env 4) in Hcl. exact Hcl. }
+    rewrite Eb in *. rewrite (Hrule r b Er Hc), Hn. reflexivity.
+Qed.
+
+(* e.g. Poland and France *)
+Corollary C06_iban_pl : forall txt, iban_country_code (clean the_env txt) = tx "PL" ->
+  ((exists s, iban_new the_env the_iban_cfg the_table the_national txt false true = Ok s) <->
+   iso_ok the_table (clean the_env txt) = true /\ pub_pl (iban_bban the_env (clean the_env txt)) = true).
+Proof. exact (C06_iban_level pub_pl (tx "PL") C06_pl). Qed.
+Corollary C06_iban_fr : forall txt, iban_country_code (clean the_env txt) = tx "FR" ->
+  ((exists s, iban_new the_env the_iban_cfg the_table the_national txt false true = Ok s) <->
+   iso_ok the_table (clean the_env txt) = true /\ pub_fr (iban_bban the_env (clean the_env txt)) = true).
+Proof. exact (C06_iban_level pub_fr (tx "FR") (fun r b => C06_fr (tx "FR") r b (or_introl eq_refl))). Qed.
+
+Print Assumptions C06_iban_accept.
+Print Assumptions C06_iban_level.
 
 Print Assumptions C06_pl.
 Print Assumptions C06_ee.
